@@ -32,14 +32,15 @@ theorem templates_python : ∀ r ∈ pythonKinds, r.1 ∈ exempt .python ∨ row
 /-- every NumPy row outside `exempt .numpy = [remainder, item]` denotes its kind -/
 theorem templates_numpy : ∀ r ∈ numpyKinds, r.1 ∈ exempt .numpy ∨ rowOK .numpy r.1 r.2 = true := by decide +kernel
 
-/-- every C++ row outside `exempt .cpp = [floor, sign]` denotes its kind -/
+/-- every C++ row outside `exempt .cpp = [sign]` denotes its kind (`floor` is full strength since /repo 1e6d6d5) -/
 theorem templates_cpp : ∀ r ∈ cppKinds, r.1 ∈ exempt .cpp ∨ rowOK .cpp r.1 r.2 = true := by decide +kernel
 
 /-- `numpy item = "{0}[{1}]"` has the right shape; only guardedness of hole 0 is missing -/
 theorem templates_numpy_item_shape : rowShapeOK .numpy "item" (.tmpl "{0}[{1}]") = true := by decide
 
-/-- Negation witnesses for the exempt rows (literal rows of the pinned tree):
-`%%` is not an operator; `std::floot` is not `std::floor`; the `sign` templates have bare holes. -/
+/-- Negation witnesses for the exempt rows (literal rows of the pinned tree): `%%` is not an operator; the
+`sign` templates have bare holes.  `std::floot` (fixed in /repo by 1e6d6d5) is kept as a regression witness:
+the old row is rejected, the repaired row is accepted (`templates_reject_examples`). -/
 theorem templates_witness :
     rowOK .python "remainder" (.tmpl "({0}) %% ({1})") = false ∧
     rowOK .numpy "remainder" (.tmpl "({0}) %% ({1})") = false ∧
